@@ -18,6 +18,8 @@ pub fn payload(id: LogId, class: u8) -> String {
             let n = match c {
                 3 => 40_000,
                 4 => 70_000,
+                // 5: one write request above 1 MiB
+                5 => (1 << 20) + 1,
                 _ => 300,
             };
             let unit = format!("<{}:{}>", id.0, id.1);
@@ -43,6 +45,11 @@ pub enum Alpha {
     Core,
     /// tiny alphabet used to reach states for argument grids
     Tiny,
+    /// core alphabet + bulk appends (40 and 130 entries in ONE call): a few
+    /// operations then reach dozens of rotations, purges of dozens of chunks and
+    /// caches holding more than a hundred entries — the counts small constants in
+    /// the code (32, 64, 128) are compared with
+    Scale,
 }
 
 /// Legal (accepted) operations at this model state.
@@ -55,6 +62,13 @@ pub fn legal(m: &RefLog, which: Alpha) -> Vec<(&'static str, Op)> {
     let first_live = m.entries.keys().next().copied();
     let full = which == Alpha::Legal;
     let core = which != Alpha::Tiny;
+    if which == Alpha::Scale {
+        for (name, n) in [("append_bulk40", 40u64), ("append_bulk130", 130u64)] {
+            let t = last.map(|l| l.0).unwrap_or(1);
+            let first = next_index(last.as_ref());
+            v.push((name, Op::Append((0..n).map(|k| ent((t, first + k), 0)).collect())));
+        }
+    }
 
     // appends
     v.push(("append", Op::Append(vec![ent((term, next), 0)])));
